@@ -284,6 +284,33 @@ let do_sparse args =
     "R " ^ String.concat " " toks
   | _ -> "R BADREQ"
 
+(* ---- stream sparseid:  S <nr> <nc> <op> ...  (same ops as stream sparse; names of the entries and of the free list after every op;
+   after an op the identity model does not cover (r, k, D) the rest of the line answers '-') *)
+let do_sparseid args =
+  match args with
+  | nr :: nc :: ops ->
+    let nat s = nat_of_int (int_of_string s) in
+    let m = ref (i_allocate (nat nr) (nat nc)) in
+    let valid = ref true in
+    let show l = String.concat "" (List.map (fun (b, i) -> Printf.sprintf "%d:%d," (int_of_nat b) (int_of_nat i)) l) in
+    let rec take n l = if n = 0 then [] else match l with [] -> [] | x :: t -> x :: take (n - 1) t in
+    let toks = List.map (fun o ->
+      let a = Array.of_list (String.split_on_char ',' o) in
+      let op = match a.(0) with
+        | "i" -> Some (IInsert (nat a.(1), nat a.(2))) | "d" -> Some (IDelete (nat a.(1), nat a.(2))) | "c" -> Some IClear
+        | "y" -> Some (ICopy (nat a.(1), nat a.(2), junk_of a.(3)))
+        | "R" -> Some (ICopyRows (nats_dot a.(1), junk_of a.(2))) | "C" -> Some (ICopyCols (nats_dot a.(1), junk_of a.(2)))
+        | "F" -> Some (ICopyFilled (nats_dot a.(1), nats_dot a.(2), nat a.(3), nat a.(4)))
+        | "f" | "e" | "E" | "w" -> Some INop
+        | _ -> None in
+      (match op with None -> valid := false | Some op -> if !valid then m := i_step !m op);
+      if not !valid then "-" else
+        let (names, fl) = i_dump !m in
+        let more = List.length fl > 40 in
+        show names ^ "|" ^ show (take 40 fl) ^ (if more then "+" else "")) ops in
+    "R " ^ String.concat " " toks
+  | _ -> "R BADREQ"
+
 (* ---- stream rs:  R <k> <n> <cb 0/1> <api 0/1> <finish 0/1> <esi> ...  (RS API model) *)
 let tabmask t = String.concat "" (List.map (fun x -> match x with Some _ -> "1" | None -> "0") t)
 let tabletters t = String.concat "" (List.map (fun x -> match x with Some true -> "R" | Some false -> "D" | None -> ".") t)
@@ -383,6 +410,7 @@ let () =
       | "A" :: args -> print_endline (do_api args)
       | "X" :: args -> print_endline (do_heap args)
       | "E" :: args -> print_endline (do_rsheap args)
+      | "S" :: args -> print_endline (do_sparseid args)
       | "U" :: size :: ws -> print_endline (match hweight_array_run (List.map z_of_string ws) (z_of_string size) with Some z -> "R " ^ string_of_z z | None -> "R UB")
       | _ -> print_endline "BADREQ"
     done
